@@ -9,10 +9,3 @@ func (m *ManagerImpl) VerifLastWrittenPaths() []string {
 	copy(out, m.lastWrittenPaths)
 	return out
 }
-
-// VerifIgnoreFilePaths exposes ignoreFilePaths.
-func VerifIgnoreFilePaths() []string {
-	out := make([]string, len(ignoreFilePaths))
-	copy(out, ignoreFilePaths)
-	return out
-}
